@@ -1,5 +1,6 @@
 """C03 — parsing, accessors and iteration never panic or hang on any input."""
 from rules.common import *
+import tys
 from spec import tables, inv
 import axioms
 
@@ -55,9 +56,15 @@ def boundary_ok(ob):
     return None
 
 
-def discharge(ctx, R, ev, entry, label):
+def loop_carried(ob):
+    return any(t[0] == 'mu' for t in T.subterms(ob['cond'])) or any(t[0] == 'mu' for a in ob['pc'] for t in T.subterms(a))
+
+
+def discharge(ctx, R, ev, entry, label, definite_only=False):
     groups = {}
     for ob in ev.all_obls:
+        if definite_only and loop_carried(ob):
+            continue        # needs a loop invariant this rule does not synthesise: not judged (see scope_completeness)
         k = (ob['fn'], ob['site'], ob['kind'], ob['detail'])
         groups.setdefault(k, []).append(ob)
     n_sites = 0
@@ -126,15 +133,22 @@ def unknowns_ok(ctx, R, ev, label):
                    found='%d call(s) to %s' % (cnt, callee), entry=label, kind='unprovable')
 
 
-def analyse(ctx, R, p, label=None, assume=None, abstract=None):
+def analyse(ctx, R, p, label=None, assume=None, abstract=None, definite_only=False):
     if p is None:
         return 0
     ev, outs = ctx.entry(p, assume=assume, abstract=abstract)
     if ev is None:
         return 0
     label = label or p
-    n = discharge(ctx, R, ev, p, label)
-    loops_ok(ctx, R, ev, label)
+    n = discharge(ctx, R, ev, p, label, definite_only)
+    if not definite_only:
+        loops_ok(ctx, R, ev, label)
+    if definite_only:
+        # extra-scope functions: std callees without an axiom are listed, not judged
+        for callee, cnt in sorted(ev.unknown_callees.items()):
+            R.inst('C03.U', 'extra-scope-callee-not-judged/' + callee, True, expected='-', found='%d call(s)' % cnt, entry=label, nontrivial=False)
+        R.inst('C03.O', 'returns-on-some-path/' + label, len(outs) > 0, expected='>= 1 normal return', found=str(len(outs)), entry=label, nontrivial=False)
+        return n
     unknowns_ok(ctx, R, ev, label)
     R.inst('C03.O', 'returns-on-some-path/' + label, len(outs) > 0, expected='>= 1 normal return', found=str(len(outs)), entry=label, nontrivial=False)
     return n
@@ -191,7 +205,42 @@ def scope(ctx, R):
     for self_ty in ('std::result::Result<T, E>', tables.V1_ERR, tables.V1_BERR, tables.V2_ERR, 'HeaderResult<>'):
         sites += analyse(ctx, R, ctx.method(self_ty, 'is_incomplete', 'PartialResult'))
     sites += analyse(ctx, R, 'PartialResult::is_complete')
+    sites += scope_completeness(ctx, R)
     return sites
+
+
+SCOPE_FILES = ('src/v1/mod.rs', 'src/v1/model.rs', 'src/v1/error.rs', 'src/v2/mod.rs', 'src/v2/model.rs', 'src/v2/error.rs', 'src/lib.rs', 'src/ip.rs')
+
+
+def scope_completeness(ctx, R):
+    """C03.S: every hand-written function of the parsing / model / error modules is in scope - either analysed above (as an entry point or
+    inlined into one) or analysed here on its own with no assumption about its arguments.  A method added to a parse result's type (an
+    Iterator override, a new accessor) is therefore judged without the list above having to know its name.  For these extra functions
+    only obligations free of loop-carried values are judged (a counter incremented in a loop would need an invariant this rule does not
+    synthesise, and reporting it would be an alarm on correct code); loop termination of extra functions is likewise not judged."""
+    covered = set()
+    for key, (ev, outs) in list(ctx.cache.items()):
+        if ev is None:
+            continue
+        covered.add(key[0])
+        for (caller, callee, span, kind) in ev.call_sites:
+            covered.add(callee)
+    n = extra = 0
+    for f in ctx.fx.raw['fns']:
+        if f.get('exp') or f.get('impl_derived') or f.get('impl_exp') or f.get('kind') == 'Closure':
+            continue
+        if not any(f.get('span', '').startswith(x + ':') for x in SCOPE_FILES):
+            continue
+        if tys.strip_lifetimes(f.get('impl_trait') or '').startswith('v2::builder::'):
+            continue            # encoders living in builder.rs are the builder's scope (C20)
+        p = f['path']
+        n += 1
+        if p in covered or p not in ctx.fx.fns:
+            continue
+        extra += 1
+        analyse(ctx, R, p, label='%s [no assumptions]' % p, definite_only=True)
+    R.inst('C03.S', 'scope-completeness', True, expected='every hand-written fn of the in-scope modules analysed', found='%d functions, %d analysed on their own' % (n, extra), nontrivial=False)
+    return 0
 
 
 def run(ctx, R):
